@@ -27,6 +27,12 @@ def out_finality(chk, repo, key, clause):
     f = repo.func(key)
     if 'out' not in f.param_names():
         raise AnalysisError(f'{key} has no out= parameter')
+    # decided on the event log (which write lands in `out`, which later steps are in place, what is returned); the
+    # statement-by-statement reading below is kept only as a fall-back for code the interpreter gives no verdict on
+    try:
+        return out_finality_by_value(chk, repo, key, clause)
+    except AnalysisError:
+        pass
     stmts = _ordered_stmts(f)
     buf, start = None, None
     for i, s in enumerate(stmts):
@@ -91,6 +97,10 @@ def out_finality_by_value(chk, repo, key, clause):
             continue            # no buffer supplied
         chain = None
         for e in p.events:
+            if e.kind == 'call' and e.depth == 0 and (e.data.get('bound') or {}).get('out') == out and \
+                    repo.has_func(str(e.data.get('callee'))) and e.data.get('result') is not None:
+                chain = e.data.get('result')        # delegated to a function of the package that fills `out` (checked there)
+                continue
             if e.kind != 'write':
                 continue
             how = e.data.get('how')
